@@ -407,6 +407,14 @@ impl Oracle {
                     &format!("type{}-{:?}-{}", ty, class, why.replace(' ', "_")),
                     format!("offered packet {} is malformed: {}", mr::hex(buf), why),
                 );
+                if ty == 1 {
+                    self.flag(
+                        "C12",
+                        "R2-connect-malformed",
+                        &why.replace(' ', "_"),
+                        format!("the CONNECT offered on connection {} is not a legal MQTT 5 packet ({}): {}", c, why, mr::hex(buf)),
+                    );
+                }
                 if why == "packet identifier 0" {
                     self.flag(
                         "C07",
